@@ -248,8 +248,8 @@ pub fn rich_dwarf(rng: &mut Rng, version: u16, format: Format, address_size: u8,
             minimum_instruction_length: *rng.pick(&[1u8, 1, 2, 4]),
             maximum_operations_per_instruction: 1,
             default_is_stmt: rng.chance(1, 2),
-            line_base: *rng.pick(&[-5i8, -3, -1, 0]),
-            line_range: *rng.pick(&[14u8, 12, 4, 1, 10]),
+            line_base: *rng.pick(&[-5i8, -3, -1, 0, -10, -128]),
+            line_range: *rng.pick(&[14u8, 12, 4, 1, 10, 242, 255, 129]),
         };
         if line_encoding.line_base as i16 + line_encoding.line_range as i16 <= 0 {
             return None;
@@ -402,8 +402,16 @@ pub fn rich_dwarf(rng: &mut Rng, version: u16, format: Format, address_size: u8,
 
 /// hand-assembled v4 `.debug_line` + a minimal unit pointing at it: opcodes the writer never emits
 fn assembled_line_unit(rng: &mut Rng, prog: &[u8]) -> Vec<(String, Vec<u8>)> {
-    let _ = rng;
-    let mut hdr_rest = vec![1u8, 1, 1, 0xfb, 14, 13];
+    // (line_base, line_range): mostly the usual one; gcc's (-10, 242), the extremes, and two that
+    // the writer cannot represent (no special opcode for a line advance of 0 / positive base),
+    // which the conversion must refuse with an error
+    let (lb, lr) = *rng.pick(&[(-5i8, 14u8), (-5, 14), (-5, 14), (-10, 242), (-128, 255), (-3, 12), (0, 1), (-1, 4), (-100, 250), (-5, 3), (1, 10)]);
+    assembled_line_unit_with(lb, lr, prog)
+}
+
+/// a one-unit DWARF 4 image whose line program header has the given line_base / line_range
+pub fn assembled_line_unit_with(lb: i8, lr: u8, prog: &[u8]) -> Vec<(String, Vec<u8>)> {
+    let mut hdr_rest = vec![1u8, 1, 1, lb as u8, lr, 13];
     hdr_rest.extend_from_slice(&[0, 1, 1, 1, 1, 0, 0, 0, 1, 0, 0, 1]);
     hdr_rest.extend_from_slice(b"inc\0");
     hdr_rest.push(0);
